@@ -211,6 +211,18 @@ fn cases() -> Vec<Case> {
                         ops.push(Op::WA { pts: T(secs(x)), data: Bytes::new(frames::audio_frame(ac, i as u32, 6).0) });
                     }
                     if vshape == 0 && astart == 0 {
+                        // the same history with every audio frame followed by a second one on the same
+                        // tick (audio timestamps need only be non-decreasing): zero-length intervals
+                        // are intervals like any other, and the totals stay what the timestamps imply
+                        let mut ops3 = vec![ops[0].clone()];
+                        for (i, &x) in times.iter().enumerate() {
+                            for rep in 0..2u32 {
+                                ops3.push(Op::WA { pts: T(secs(x)), data: Bytes::new(frames::audio_frame(ac, 2 * i as u32 + rep, 6 + rep as usize).0) });
+                            }
+                        }
+                        v.push(Case::Prog { name: format!("audio-gaps/{ac:?}/doubled/g1={g1}/g2={g2:?}"), cfg: cfg.clone(), ops: ops3 });
+                    }
+                    if vshape == 0 && astart == 0 {
                         // the same history ending in an audio call that is refused for its payload
                         // (one second on): the last accepted sample keeps the duration it had
                         let mut ops2 = ops.clone();
